@@ -16,7 +16,7 @@ from ..progspace import OPS_Q, PARAMS_X, PARAMS_XY, inputs_for, programs, return
 from ..spaces import all_res, prog_of, shard_iter
 
 ID = "C17"
-BUDGET = {"quick": 100, "thorough": 900}
+BUDGET = {"quick": 240, "thorough": 900}
 
 
 # ------------------------------------------------------------------ (i) flavour differential over generated programs
